@@ -20,6 +20,19 @@ macro_rules! with_disc {
         { assert!(false, "role=unexpected_discriminant"); }
     }};
 }
+macro_rules! with_fixed_disc_or_other {
+    ($buf:expr, $idx:expr, $body:block) => {{
+        let d0 = $buf[$idx];
+        if d0 == 0x01 { $buf[$idx] = 0x01; $body } else if d0 == 0x10 { $buf[$idx] = 0x10; $body } else if d0 == 0x12 { $buf[$idx] = 0x12; $body }
+        else if d0 == 0x13 { $buf[$idx] = 0x13; $body } else if d0 == 0x14 { $buf[$idx] = 0x14; $body } else if d0 == 0x15 { $buf[$idx] = 0x15; $body }
+        else if d0 == 0x16 { $buf[$idx] = 0x16; $body } else if d0 == 0x18 { $buf[$idx] = 0x18; $body } else if d0 == 0x19 { $buf[$idx] = 0x19; $body }
+        else if d0 == 0x33 { $buf[$idx] = 0x33; $body } else if d0 == 0x34 { $buf[$idx] = 0x34; $body } else if d0 == 0x40 { $buf[$idx] = 0x40; $body }
+        else if d0 == 0x41 { $buf[$idx] = 0x41; $body } else if d0 == 0x42 { $buf[$idx] = 0x42; $body } else if d0 == 0x43 { $buf[$idx] = 0x43; $body }
+        else if d0 == 0x63 { $buf[$idx] = 0x63; $body } else if d0 == 0x80 { $buf[$idx] = 0x80; $body } else if d0 == 0x81 { $buf[$idx] = 0x81; $body }
+        else if d0 == 0x82 { $buf[$idx] = 0x82; $body } else if d0 == 0x83 { $buf[$idx] = 0x83; $body }
+        else { $buf[$idx] = 0x02; $body } // every other byte is an unknown discriminant: 0x02 stands for the class (decoder has one `_ =>` arm)
+    }};
+}
 macro_rules! with_fixed_disc {
     ($buf:expr, $idx:expr, $body:block) => {
         with_disc!($buf, $idx, [0x01u8, 0x10u8, 0x12u8, 0x13u8, 0x14u8, 0x15u8, 0x16u8, 0x18u8, 0x19u8, 0x33u8, 0x34u8, 0x40u8, 0x41u8, 0x42u8, 0x43u8, 0x63u8, 0x80u8, 0x81u8, 0x82u8, 0x83u8], $body)
@@ -157,75 +170,109 @@ vt_proof! { unwind = 37; fn c33_rt_geo() {
     scalar_rt!(v, [0x80u8, 0x81u8, 0x82u8]);
 }}
 
-// @vt prop=C33 tier=quick bound="two rows in one buffer: [Int|Float|Null any payload] then [any fixed-width scalar, Null]" outside="longer sequences; more than 2 columns" timeout=900
-vt_proof! { unwind = 34; fn c33_two_rows_sequence() {
-    let a: Value<'static> = { let k: u8 = kani::any(); kani::assume(k < 3); match k { 0 => Value::Null, 1 => Value::Int(kani::any()), _ => Value::Float(kani::any()) } };
-    kani::assume(!matches!(a, Value::Float(f) if f == 0.0)); // known finding float_zero_type is decided in c33_scalar_roundtrip
-    let b = any_scalar();
-    kani::assume(!matches!(b, Value::Float(f) if f == 0.0));
-    let row1 = [a];
-    let row2 = [b, Value::Null];
-    let mut buf: Vec<u8> = Vec::with_capacity(96);
+/// copy a serialized buffer to the stack (see scalar_rt!)
+fn to_stack(buf: &Vec<u8>) -> ([u8; 40], usize) {
+    let mut arr = [0u8; 40];
+    let n = buf.len();
+    assert!(n <= 35, "role=row_fits");
+    let mut i = 0; while i < 35 { if i < n { arr[i] = buf[i]; } i += 1; }
+    (arr, n)
+}
+
+// @vt prop=C33 tier=quick bound="two rows in one buffer: [positive i64] then [any i64, Null]; then a read at end of buffer" outside="longer sequences; more than 2 columns; other variants in a sequence (every variant is decided singly in c33_rt_*)" timeout=900
+vt_proof! { unwind = 37; fn c33_two_rows_sequence() {
+    let x: i64 = kani::any(); kani::assume(x > 0);
+    let row1 = [Value::Int(x)];
+    let row2 = [Value::Int(kani::any()), Value::Null];
+    let mut buf: Vec<u8> = Vec::with_capacity(48);
     RowSerde::serialize_row_into(&row1, &mut buf);
     let l1 = buf.len();
     RowSerde::serialize_row_into(&row2, &mut buf);
-    assert!(l1 == RowSerde::row_size(&row1) && buf.len() == l1 + RowSerde::row_size(&row2), "role=sizes_add_up");
+    assert!(l1 == 11 && l1 == RowSerde::row_size(&row1) && buf.len() == l1 + RowSerde::row_size(&row2), "role=sizes_add_up");
+    let (mut arr, n) = to_stack(&buf);
+    assert!(arr[0] == 0 && arr[1] == 1 && arr[2] == 0x16, "role=column_count_field"); arr[0] = 0; arr[1] = 1; arr[2] = 0x16;
     let mut out: Out = SmallVec::new();
     let mut off = 0usize;
-    assert!(RowSerde::deserialize_row_into(&buf, &mut off, &mut out).is_ok(), "role=first_row_ok");
-    assert!(off == l1 && out.len() == 1 && same(&row1[0], &out[0]), "role=first_row_in_order");
-    assert!(RowSerde::deserialize_row_into(&buf, &mut off, &mut out).is_ok(), "role=second_row_ok");
-    assert!(off == buf.len() && out.len() == 2, "role=second_row_consumed");
-    assert!(same(&row2[0], &out[0]) && same(&row2[1], &out[1]), "role=second_row_in_order");
-    // nothing left: a third read must fail, not wrap around or panic
-    assert!(RowSerde::deserialize_row_into(&buf, &mut off, &mut out).is_err(), "role=end_of_buffer_is_error");
-    kani::cover!(l1 == 3, "w:first_row_one_byte_value");
+    let r = RowSerde::deserialize_row_into(&arr[..n], &mut off, &mut out);
+    assert!(r.is_ok(), "role=first_row_ok");
+    assert!(off == 11 && out.len() == 1 && same(&row1[0], &out[0]), "role=first_row_in_order");
+    core::mem::forget(r);
+    second_row(&mut arr, n, 11, &row2, &mut out);
+    kani::cover!(matches!(row2[0], Value::Int(0)), "w:second_row_one_byte_value");
     core::mem::forget((buf, out, row1, row2));
 }}
+fn second_row(arr: &mut [u8; 40], n: usize, at: usize, row2: &[Value<'static>; 2], out: &mut Out) {
+    assert!(arr[at] == 0 && arr[at + 1] == 2, "role=column_count_field"); arr[at] = 0; arr[at + 1] = 2;
+    with_disc!(arr, at + 2, [0x12u8, 0x14u8, 0x16u8], {
+        let mut off = at;
+        let r = RowSerde::deserialize_row_into(&arr[..n], &mut off, out);
+        assert!(r.is_ok(), "role=second_row_ok");
+        assert!(off == n && out.len() == 2, "role=second_row_consumed");
+        assert!(same(&row2[0], &out[0]) && same(&row2[1], &out[1]), "role=second_row_in_order");
+        // nothing left: a third read must fail, not wrap around or panic
+        let r3 = RowSerde::deserialize_row_into(&arr[..n], &mut off, out);
+        assert!(r3.is_err(), "role=end_of_buffer_is_error");
+        core::mem::forget((r, r3));
+    });
+}
 
 fn bytes_variant(k: u8, b: Vec<u8>) -> Value<'static> {
-    match k { 0 => Value::Blob(Cow::Owned(b)), 1 => Value::Jsonb(Cow::Owned(b)), _ => Value::ToastPointer(Cow::Owned(b)) }
+    match k { 0 => Value::Blob(Cow::Owned(b)), 1 => Value::Jsonb(Cow::Owned(b)), 2 => Value::ToastPointer(Cow::Owned(b)),
+              _ => Value::Text(Cow::Owned(unsafe { String::from_utf8_unchecked(b) })) }
 }
 fn bytes_of<'a>(v: &'a Value<'static>) -> Option<(u8, &'a [u8])> {
     match v { Value::Blob(b) => Some((0, &b[..])), Value::Jsonb(b) => Some((1, &b[..])), Value::ToastPointer(b) => Some((2, &b[..])), Value::Text(s) => Some((3, s.as_bytes())), _ => None }
 }
 
-// @vt prop=C33 tier=quick bound="one-column rows holding Blob / Jsonb / ToastPointer / Text of length 0..=3 (all byte values; text ASCII)" outside="payloads longer than 3 bytes" timeout=900
-vt_proof! { unwind = 34; fn c33_bytes_roundtrip() {
+// @vt prop=C33 tier=quick bound="one-column rows holding Blob / Jsonb / ToastPointer / Text of length 0..=1 (all byte values; text ASCII)" outside="payloads longer than 1 byte (thorough: 3)" timeout=900 mem=16
+vt_proof! { unwind = 37; fn c33_bytes_roundtrip_len1() {
     let data: [u8; 3] = kani::any();
     let k: u8 = kani::any(); kani::assume(k < 4);
-    let n: usize = kani::any(); kani::assume(n <= 3);
+    if k == 3 { kani::assume(data[0] < 0x80 && data[1] < 0x80 && data[2] < 0x80); }
+    let n: usize = kani::any(); kani::assume(n <= 1);
     // concrete length per branch: symbolic allocation sizes are a CBMC blow-up, the case split is exhaustive
-    if n == 0 { bytes_rt(k, &data, 0) } else if n == 1 { bytes_rt(k, &data, 1) } else if n == 2 { bytes_rt(k, &data, 2) } else { bytes_rt(k, &data, 3) }
+    if n == 0 { bytes_rt(k, &data, 0) } else { bytes_rt(k, &data, 1) }
+}}
+// @vt prop=C33 tier=thorough bound="one-column rows holding Blob / Jsonb / ToastPointer / Text of length 2..=3 (all byte values; text ASCII)" outside="payloads longer than 3 bytes" timeout=2400 mem=30
+vt_proof! { unwind = 37; fn c33_bytes_roundtrip_len3() {
+    let data: [u8; 3] = kani::any();
+    let k: u8 = kani::any(); kani::assume(k < 4);
+    if k == 3 { kani::assume(data[0] < 0x80 && data[1] < 0x80 && data[2] < 0x80); }
+    let n: usize = kani::any(); kani::assume(n == 2 || n == 3);
+    if n == 2 { bytes_rt(k, &data, 2) } else { bytes_rt(k, &data, 3) }
 }}
 fn bytes_rt(k: u8, data: &[u8; 3], n: usize) {
-    let v: Value<'static> = if k == 3 {
-        kani::assume(data[0] < 0x80 && data[1] < 0x80 && data[2] < 0x80);
-        Value::Text(Cow::Owned(unsafe { String::from_utf8_unchecked(data[..n].to_vec()) }))
-    } else { bytes_variant(k, data[..n].to_vec()) };
-    let row = [v];
+    let row = [bytes_variant(k, data[..n].to_vec())];
     let mut buf: Vec<u8> = Vec::with_capacity(32);
     RowSerde::serialize_row_into(&row, &mut buf);
     assert!(buf.len() == RowSerde::row_size(&row), "role=row_size_equals_bytes_written");
     assert!(buf.len() == 2 + 1 + 4 + n, "role=bytes_layout_len");
+    let (mut arr, len) = to_stack(&buf);
+    assert!(arr[0] == 0 && arr[1] == 1, "role=column_count_field"); arr[0] = 0; arr[1] = 1;
+    assert!(arr[3] == 0 && arr[4] == 0 && arr[5] == 0 && arr[6] == n as u8, "role=length_field_big_endian");
+    arr[3] = 0; arr[4] = 0; arr[5] = 0; arr[6] = n as u8;
     let mut out: Out = SmallVec::new();
-    let mut off = 0usize;
-    assert!(RowSerde::deserialize_row_into(&buf, &mut off, &mut out).is_ok(), "role=deserialize_ok");
-    assert!(off == buf.len() && out.len() == 1, "role=offset_advances_by_row_size");
-    match bytes_of(&out[0]) {
-        Some((kk, b)) => {
-            assert!(kk == k, "role=variant_and_bits_equal");
-            assert!(b.len() == n, "role=bytes_len_equal");
-            let mut i = 0; while i < n { assert!(b[i] == data[i], "role=bytes_equal"); i += 1; }
+    with_disc!(arr, 2, [0x20u8, 0x21u8, 0x50u8, 0x84u8], {
+        let mut off = 0usize;
+        let r = RowSerde::deserialize_row_into(&arr[..len], &mut off, &mut out);
+        assert!(r.is_ok(), "role=deserialize_ok");
+        assert!(off == len && out.len() == 1, "role=offset_advances_by_row_size");
+        match bytes_of(&out[0]) {
+            Some((kk, b)) => {
+                assert!(kk == k, "role=variant_and_bits_equal");
+                assert!(b.len() == n, "role=bytes_len_equal");
+                let mut i = 0; while i < n { assert!(b[i] == data[i], "role=bytes_equal"); i += 1; }
+            }
+            None => assert!(false, "role=variant_and_bits_equal"),
         }
-        None => assert!(false, "role=variant_and_bits_equal"),
-    }
-    kani::cover!(n == 3 && k == 2, "w:toast_pointer_three_bytes");
+        core::mem::forget(r);
+    });
+    kani::cover!(k == 2, "w:toast_pointer");
     core::mem::forget((buf, out, row));
 }
 
 // @vt prop=C33 tier=quick bound="one-column rows holding a Vector of 0..=2 f32 (all bit patterns)" outside="vectors longer than 2" timeout=900
-vt_proof! { unwind = 34; fn c33_vector_roundtrip() {
+vt_proof! { unwind = 37; fn c33_vector_roundtrip() {
     let data: [f32; 2] = kani::any();
     let n: usize = kani::any(); kani::assume(n <= 2);
     if n == 0 { vec_rt(&data, 0) } else if n == 1 { vec_rt(&data, 1) } else { vec_rt(&data, 2) }
@@ -235,31 +282,44 @@ fn vec_rt(data: &[f32; 2], n: usize) {
     let mut buf: Vec<u8> = Vec::with_capacity(32);
     RowSerde::serialize_row_into(&row, &mut buf);
     assert!(buf.len() == RowSerde::row_size(&row), "role=row_size_equals_bytes_written");
+    let (mut arr, len) = to_stack(&buf);
+    assert!(arr[0] == 0 && arr[1] == 1 && arr[2] == 0x70, "role=column_count_field"); arr[0] = 0; arr[1] = 1; arr[2] = 0x70;
+    assert!(arr[3] == 0 && arr[4] == 0 && arr[5] == 0 && arr[6] == n as u8, "role=length_field_big_endian");
+    arr[3] = 0; arr[4] = 0; arr[5] = 0; arr[6] = n as u8;
     let mut out: Out = SmallVec::new();
     let mut off = 0usize;
-    assert!(RowSerde::deserialize_row_into(&buf, &mut off, &mut out).is_ok(), "role=deserialize_ok");
-    assert!(off == buf.len() && out.len() == 1, "role=offset_advances_by_row_size");
+    let r = RowSerde::deserialize_row_into(&arr[..len], &mut off, &mut out);
+    assert!(r.is_ok(), "role=deserialize_ok");
+    assert!(off == len && out.len() == 1, "role=offset_advances_by_row_size");
     match &out[0] {
         Value::Vector(v) => { assert!(v.len() == n, "role=vector_len_equal"); let mut i = 0; while i < n { assert!(v[i].to_bits() == data[i].to_bits(), "role=vector_bits_equal"); i += 1; } }
         _ => assert!(false, "role=variant_and_bits_equal"),
     }
     kani::cover!(n == 2, "w:two_components");
-    core::mem::forget((buf, out, row));
+    core::mem::forget((buf, out, row, r));
 }
 
-// @vt prop=C33 tier=quick bound="arbitrary input of 0..=14 bytes whose column count field is <= 2, arbitrary start offset <= len" outside="longer inputs; column counts > 2 (SmallVec::reserve with a symbolic size)" timeout=900
+// @vt prop=C33 tier=thorough bound="arbitrary input of 0..=14 bytes with column count 1 and an arbitrary discriminant byte (every documented discriminant and every undocumented one), arbitrary payload incl. length fields" outside="longer inputs; column counts > 1" timeout=1800 mem=16
 vt_proof! { unwind = 18; fn c33_deserialize_arbitrary_bytes_no_panic() {
-    let data: [u8; 14] = kani::any();
+    let mut data: [u8; 14] = kani::any();
     let n: usize = kani::any(); kani::assume(n <= 14);
-    kani::assume(data[0] == 0 && data[1] <= 2);
-    // length fields of heap variants: keep allocations small (stated bound)
+    data[0] = 0; data[1] = 1;
     let mut out: Out = SmallVec::new();
-    let mut off = 0usize;
-    let r = RowSerde::deserialize_row_into(&data[..n], &mut off, &mut out);
-    assert!(off <= n, "role=offset_within_input");
-    if r.is_ok() { assert!(out.len() == data[1] as usize, "role=ok_means_all_columns"); }
-    kani::cover!(r.is_ok() && data[1] == 2, "w:two_columns_decoded");
-    kani::cover!(r.is_err() && n > 3, "w:error_path");
+    let d0 = data[2];
+    let mut any_ok = false;
+    macro_rules! go { () => {{
+        let mut off = 0usize;
+        let r = RowSerde::deserialize_row_into(&data[..n], &mut off, &mut out);
+        assert!(off <= n, "role=offset_within_input");
+        if r.is_ok() { assert!(out.len() == 1, "role=ok_means_all_columns"); }
+        if r.is_ok() { any_ok = true; }
+        core::mem::forget(r);
+    }}; }
+    // fixed-width discriminants and "anything else" share one call (no allocation arms are feasible)
+    if d0 == 0x20 { data[2] = 0x20; go!(); } else if d0 == 0x21 { data[2] = 0x21; go!(); } else if d0 == 0x50 { data[2] = 0x50; go!(); }
+    else if d0 == 0x84 { data[2] = 0x84; go!(); } else if d0 == 0x70 { data[2] = 0x70; go!(); }
+    else { with_fixed_disc_or_other!(data, 2, { go!(); }); }
+    kani::cover!(any_ok, "w:some_decode_succeeds");
+    kani::cover!(!any_ok && n > 3, "w:some_decode_fails");
     core::mem::forget(out);
-    core::mem::forget(r);
 }}
